@@ -570,6 +570,9 @@ def run(facts, R):
             hp = op_place(t["args"][0])
             sym = aff.sym
             he = sym.op(t["args"][0])
+            if hp is not None:
+                # the header may come out of a helper's tuple result: follow it back to the decoded header itself
+                he = sym.place(aff.resolve_place(hp))
             ok = True
             det = []
             for k, fld in ((1, "query_length"), (2, "body_length")):
